@@ -49,6 +49,9 @@ type MemFS struct {
 	avfs.UMaskFn                // UMaskFn provides UMask functions to file systems.
 	avfs.FeaturesFn             // FeaturesFn provides features functions to a file system or an identity manager.
 	avfs.OSTypeFn               // OSTypeFn provides OS type functions to a file system or an identity manager.
+
+	// treeMu makes every operation on the tree atomic (it is shared with the file systems returned by Sub).
+	treeMu *sync.RWMutex
 }
 
 // MemFile represents an open file descriptor.
